@@ -402,15 +402,21 @@ impl Storage {
         tip_header: &Header,
         last_n_headers: &[HeaderView],
     ) {
+        // The last state and the last n headers must be consistent with each other, so write
+        // them atomically.
+        let mut batch = self.batch();
         let key = Key::Meta(LAST_STATE_KEY).into_vec();
         let mut value = total_difficulty.to_le_bytes().to_vec();
         value.extend(tip_header.as_slice());
-        #[cfg(feature = "verif")]
-        crate::verif_hook::before_write("update_last_state");
-        self.db
-            .put(key, &value)
-            .expect("db put last state should be ok");
-        self.update_last_n_headers(last_n_headers);
+        batch.put(key, &value).expect("batch put should be ok");
+        let key = Key::Meta(LAST_N_HEADERS_KEY).into_vec();
+        let mut value: Vec<u8> = Vec::with_capacity(last_n_headers.len() * 40);
+        for header in last_n_headers {
+            value.extend(header.number().to_le_bytes());
+            value.extend(header.hash().as_slice());
+        }
+        batch.put(key, &value).expect("batch put should be ok");
+        batch.commit().expect("batch commit should be ok");
     }
 
     pub fn get_last_state(&self) -> (U256, Header) {
@@ -428,19 +434,6 @@ impl Storage {
             .expect("tip header should be inited")
     }
 
-    pub fn update_last_n_headers(&self, headers: &[HeaderView]) {
-        let key = Key::Meta(LAST_N_HEADERS_KEY).into_vec();
-        let mut value: Vec<u8> = Vec::with_capacity(headers.len() * 40);
-        for header in headers {
-            value.extend(header.number().to_le_bytes());
-            value.extend(header.hash().as_slice());
-        }
-        #[cfg(feature = "verif")]
-        crate::verif_hook::before_write("update_last_n_headers");
-        self.db
-            .put(key, &value)
-            .expect("db put last n headers should be ok");
-    }
     pub fn get_last_n_headers(&self) -> Vec<(u64, Byte32)> {
         let key = Key::Meta(LAST_N_HEADERS_KEY).into_vec();
         self.db
